@@ -163,7 +163,10 @@ func Exec(s *Scn, o RunOpts) *Run {
 		Bound: func(contract common.Address, cut atypes.PointCut) ([]*atypes.AspectCode, error) {
 			r.Provider = append(r.Provider, fmt.Sprintf("%x %s", contract[:], cut))
 			id, ok := boundID[contract]
-			if !jpOn || !ok || s.Bound&(1<<uint(id)) == 0 {
+			// the answer does not depend on the join-point switch: with the switch off the EVM must not ask at all, and
+			// if it does, the bound Aspects run and show up as unexpected executions
+			_ = jpOn
+			if !ok || s.Bound&(1<<uint(id)) == 0 {
 				return nil, nil
 			}
 			pre := cut == atypes.PRE_CONTRACT_CALL_METHOD
@@ -293,6 +296,8 @@ func Exec(s *Scn, o RunOpts) *Run {
 			env.EVM.CloseAspectCall()
 		}
 		jpOn = on
+		// hosts reuse an EVM for the next message through Reset: with unchanged arguments it must change nothing
+		env.EVM.Reset(env.EVM.TxContext, env.EVM.StateDB)
 		inv := RInv{JPOn: on, EventStart: len(rec.All), FiringStart: len(r.Firings), AnswerStart: len(r.Answers), TransferStart: len(r.Transfers)}
 		ret, _, gas, err, p := env.Call(cs)
 		inv.Ret, inv.Gas, inv.Err, inv.Panic = ret, gas, err, p
